@@ -158,6 +158,67 @@ def concrete_run(mod, cfg, values, decisions, exact=True):
 
 MAX_PATHS_DEFAULT = 20000
 
+# ---- statement coverage of the code under test (evidence only) ---------------------------------
+# sys.monitoring (3.12): every line location reports once per process and is then disabled, so the cost is negligible.  The
+# evidence lists the statements of the encoded functions that no explored path executed: code the bounded claim says nothing about.
+_COV = {'new': set(), 'on': False}
+
+
+def _cov_start():
+    if _COV['on']:
+        return
+    _COV['on'] = True
+    mon = getattr(sys, 'monitoring', None)
+    if mon is None:
+        return
+    try:
+        mon.use_tool_id(mon.COVERAGE_ID, 'verif-statement-coverage')
+    except ValueError:
+        return
+    prefix = os.path.join(os.path.realpath(REPO), 'EoN') + os.sep
+
+    def on_line(code, lineno):
+        if code.co_filename.startswith(prefix):
+            _COV['new'].add((code.co_filename, lineno))
+        return mon.DISABLE
+    mon.register_callback(mon.COVERAGE_ID, mon.events.LINE, on_line)
+    mon.set_events(mon.COVERAGE_ID, mon.events.LINE)
+
+
+def _cov_take():
+    out = sorted(_COV['new'])
+    _COV['new'] = set()
+    return out
+
+
+def statement_coverage(funcs, lines):
+    import dis
+    import linecache
+    hit = set((os.path.realpath(f), l) for f, l in lines)
+    total = 0
+    missed = []
+    per_fn = {}
+    for fn in funcs:
+        code = getattr(fn, '__code__', None)
+        if code is None:
+            continue
+        todo, mine = [code], set()
+        while todo:
+            c = todo.pop()
+            for _, ln in dis.findlinestarts(c):
+                if ln is not None and ln > 0 and not (ln == c.co_firstlineno and not c.co_name.startswith('<')):
+                    mine.add(ln)          # (the `def` line itself executes in the enclosing scope)
+            todo.extend(k for k in c.co_consts if hasattr(k, 'co_code'))
+        fname = os.path.realpath(code.co_filename)
+        name = getattr(fn, '__qualname__', getattr(fn, '__name__', '?'))
+        miss = sorted(l for l in mine if (fname, l) not in hit)
+        total += len(mine)
+        per_fn[name] = [len(mine) - len(miss), len(mine)]
+        for l in miss:
+            missed.append({'function': name, 'line': l, 'text': linecache.getline(fname, l).strip()[:100]})
+    return {'statements_in_encoded_functions': total, 'executed_on_some_explored_path': total - len(missed),
+            'per_function_executed_of_total': per_fn, 'never_executed': missed[:120], 'never_executed_count': len(missed)}
+
 
 def explore_config(args):
     """worker: explore all paths of one configuration"""
@@ -166,6 +227,7 @@ def explore_config(args):
     mod = __import__('checks.' + modname, fromlist=['x'])
     eng = Engine()
     set_engine(eng)
+    _cov_start()
     t0 = _now()
     eng.deadline = symx._cpu() + opts.get('cfg_timeout', 300)
     eng.wall_deadline = t0 + 8 * opts.get('cfg_timeout', 300)
@@ -249,6 +311,7 @@ def explore_config(args):
     res['aborted'] = dict(res['aborted'])
     res['stats'] = dict(res.get('stats', {}))
     res['counts'] = dict(res['counts'])
+    res['lines'] = _cov_take()
     return res
 
 
@@ -418,6 +481,14 @@ def finish(mod, prop, tier, seed, cfgs, results, t0, extra_cov=None):
         'wall_s': round(wall, 2),
         'violations': len(violations),
     }
+    if hasattr(mod, 'functions'):
+        try:
+            lines = set()
+            for r in results:
+                lines.update(tuple(x) for x in r.get('lines', []))
+            ev['coverage']['statement_coverage'] = statement_coverage(mod.functions(), lines)
+        except Exception as e:      # evidence only: never decides the verdict
+            ev['coverage']['statement_coverage'] = {'error': repr(e)[:200]}
     if extra_cov:
         ev['coverage'].update(extra_cov)
     # runs against another tree than /repo (seeded-change experiments) must not overwrite the evidence of the real tree
